@@ -285,3 +285,8 @@ pub use provider::Provider;
 #[doc(hidden)]
 #[cfg(all(feature = "rch", feature = "default-codec-set"))]
 pub mod doctest;
+
+// Verification harnesses (add-only; compiled only with `--cfg remoc_verif`, in which case the
+// build names the harness file through the REMOC_VERIF_HARNESS environment variable).
+#[cfg(remoc_verif)]
+include!(env!("REMOC_VERIF_HARNESS"));
